@@ -9,7 +9,9 @@
         prints which checks caught which changes (from the recorded result.json files)
 Never commits anything to /repo.
 """
-import json, os, shutil, subprocess, sys, time
+import json, os, shutil, signal, subprocess, sys, time
+
+signal.signal(signal.SIGTERM, lambda *a: sys.exit(143))  # so that 'finally' still undoes the patch
 
 ROOT = os.path.dirname(os.path.dirname(os.path.abspath(__file__)))
 SEEDED = os.path.join(ROOT, "seeded")
@@ -59,7 +61,14 @@ def run_one(sid, tier, props=None):
         for prop in (props or [meta["property"]]):
             t0 = time.time()
             env = dict(os.environ)
-            c = sh([os.path.join(ROOT, "check"), prop, tier], env=env, cwd=ROOT)
+            env.setdefault("VERIF_BUDGET_S", "300")
+            try:
+                c = sh([os.path.join(ROOT, "check"), prop, tier], env=env, cwd=ROOT, timeout=1500)
+            except subprocess.TimeoutExpired:
+                sh(["pkill", "-f", "inosim worker"])
+                results[prop] = {"exit": 2, "violations": 0, "clauses": [], "wall_s": 1500, "first": "", "tail": "timeout"}
+                print(sid, prop, "TIMEOUT")
+                continue
             viol = [l for l in c.stdout.splitlines() if l.startswith("VIOLATION")]
             clauses = sorted(set(l.split("clause=")[1].split()[0] for l in c.stdout.splitlines() if l.startswith("#   clause=")))
             results[prop] = {"exit": c.returncode, "violations": len(viol), "clauses": clauses, "wall_s": round(time.time() - t0, 1),
